@@ -1,16 +1,28 @@
 #!/bin/sh
-# Build the Coq development (full .vo build) and warm the harness builds. Offline.
+# Build the Coq development (full .vo build, plain coqc, never -vos) and warm the harness builds. Offline.
 cd "$(dirname "$0")"
 mkdir -p _build
-./tools/coqmake -k > _build/setup_coq.log 2>&1 || { echo "coq build had errors (see _build/setup_coq.log); checks re-build their own cones"; tail -5 _build/setup_coq.log; }
-python3 - <<'PY'
-import sys
+timeout 3300 ./tools/coqmake -k > _build/setup_coq.log 2>&1 || { echo "coq build had errors (see _build/setup_coq.log); checks re-build their own cones"; tail -5 _build/setup_coq.log; }
+timeout 3000 python3 - <<'PY'
+import importlib, json, os, subprocess, sys, shutil
 sys.path.insert(0, ".")
 import vlib
-for feats in ((), ("no_unroll",)):
-    b, log = vlib.cargo_build(features=feats, profile="debug")
-    if b is None:
-        print(log[-3000:])
+# all harness binaries, both profiles, default features (one cargo invocation each)
+env = dict(os.environ, CARGO_NET_OFFLINE="true", CARGO_TARGET_DIR=vlib.TARGET, RUSTFLAGS=" ".join(vlib.BASE_RUSTFLAGS))
+shutil.copyfile("/repo/Cargo.lock", os.path.join(vlib.HARNESS, "Cargo.lock"))
+for extra in ([], ["--release"], ["--features", "no_unroll"], ["--features", "no_unroll", "--release"]):
+    subprocess.run(["cargo", "build", "--offline", "--quiet", "--bins"] + extra, cwd=vlib.HARNESS, env=env)
+for extra in (["--features", "no_simd"], ["--features", "no_simd", "--release"]):
+    subprocess.run(["cargo", "build", "--offline", "--quiet", "--bin", "h_ppvgen"] + extra, cwd=vlib.HARNESS, env=env)
+# per-check warm-up hooks (optional `warm()` in checks/<id>.py)
+claimed = json.load(open("tools/claimed.json"))
+for pid in claimed:
+    try:
+        m = importlib.import_module("checks." + pid.lower())
+        if hasattr(m, "warm"):
+            m.warm()
+    except Exception as e:  # warming is best effort; the checks build what they need
+        print("warm %s: %s" % (pid, e))
 print("setup done")
 PY
 exit 0
